@@ -74,6 +74,17 @@ func fieldTag(s *types.Struct, name string) (string, bool) {
 	return "", false
 }
 
+// fieldEmbedded: gnark v0.9.1's schema walker (frontend/schema/internal/reflectwalk, walkStruct) descends into an
+// anonymous (embedded) field WITHOUT consulting its tag — a `gnark:"-"` on an embedded field has no effect.
+func fieldEmbedded(s *types.Struct, name string) bool {
+	for i := 0; i < s.NumFields(); i++ {
+		if s.Field(i).Name() == name {
+			return s.Field(i).Embedded()
+		}
+	}
+	return false
+}
+
 func verifyFn(P *Program) *ssa.Function { return P.Func("verifier", "(*VerifierChip).Verify") }
 
 // ---------------------------------------------------------------- C04
@@ -109,6 +120,10 @@ func rulesC04(cx *Ctx) []Obligation {
 			tag, has := fieldTag(st, field)
 			if !has {
 				obs = append(obs, undecided(key, desc, "field "+field+" not found in "+cname))
+				continue
+			}
+			if fieldEmbedded(st, field) {
+				obs = append(obs, bad(key, desc, fmt.Sprintf("field %s.%s is embedded: gnark's schema walker descends into anonymous fields without reading their tag, so `%s` has no effect and every leaf of the key is a secret prover input", cname, field, tag), r.site(rec)))
 				continue
 			}
 			switch vis := gnarkVisibility(tag); vis {
